@@ -679,7 +679,13 @@ func v0GenAPI(r *Rng) *pset.Pset {
 			p.Inputs[i].Unknowns = append(p.Inputs[i].Unknowns, v0GenUnknown(r))
 		}
 		if pl.canFinalize && r.Chance(50) {
-			pset.Finalize(p, i)
+			var before *pset.Pset
+			if v0FinSink != nil {
+				before = v0Clone(p)
+			}
+			if err := pset.Finalize(p, i); err == nil && v0FinSink != nil {
+				v0FinSink(before, i, p)
+			}
 		}
 	}
 	for i := range outs {
@@ -882,6 +888,45 @@ func v0CaseLine(tag string, p *pset.Pset) string {
 	v0Oracle(&b, p, v0PacketStream(p))
 	v0WritePset(&b, p)
 	return strings.TrimSpace(b.String())
+}
+
+// v0FinSink, when set, receives every successful Finalize of the role-built generator: the
+// packet before the call, the input index and the packet after it.
+var v0FinSink func(before *pset.Pset, idx int, after *pset.Pset)
+
+// genV0FinCases: `v0fin <idx> <opt final script sig> <opt final script witness> <packet before>`.
+// The final scripts are those the finalizer produced (script assembly is outside the codec model);
+// what K compares is the whole packet the finalizer leaves, i.e. which fields it clears.
+func genV0FinCases(r *Rng, n int, w *bufio.Writer) {
+	count := 0
+	v0FinSink = func(before *pset.Pset, idx int, after *pset.Pset) {
+		if count >= n {
+			return
+		}
+		count++
+		var b sb
+		b.add("v0fin")
+		b.addn(uint64(idx))
+		v0WriteOpt(&b, after.Inputs[idx].FinalScriptSig)
+		v0WriteOpt(&b, after.Inputs[idx].FinalScriptWitness)
+		v0WritePset(&b, before)
+		fmt.Fprintln(w, strings.TrimSpace(b.String()))
+	}
+	defer func() { v0FinSink = nil }()
+	for guard := 0; count < n && guard < 50*n+100; guard++ {
+		v0GenAPI(r)
+	}
+}
+
+func runV0Fin(t *Toks) string {
+	idx := t.Int()
+	v0ReadOpt(t)
+	v0ReadOpt(t)
+	p := v0ReadPset(t)
+	if err := pset.Finalize(p, idx); err != nil {
+		return "res=finerr"
+	}
+	return "res=ok fin=" + v0Dump(p)
 }
 
 func genV0Cases(r *Rng, n int, w *bufio.Writer) {
@@ -1317,4 +1362,6 @@ func init() {
 	gens["v0raw"] = genV0RawCases
 	runs["v0"] = runV0
 	runs["v0raw"] = runV0Raw
+	gens["v0fin"] = genV0FinCases
+	runs["v0fin"] = runV0Fin
 }
